@@ -25,6 +25,23 @@ fn main() {
             }
         }
     }
+    if args[1] == "fuzz-replay" {
+        // bsv fuzz-replay <target> <file>: run one saved fuzzer input through the same oracle
+        if args.len() < 4 {
+            usage();
+        }
+        let data = std::fs::read(&args[3]).unwrap_or_else(|e| {
+            eprintln!("cannot read {}: {e}", args[3]);
+            std::process::exit(2)
+        });
+        match bsv::fuzzdec::run(&args[2], &data) {
+            Ok(()) => std::process::exit(0),
+            Err(m) => {
+                println!("{m}");
+                std::process::exit(1)
+            }
+        }
+    }
     if args[1] == "gen-one" {
         if args.len() < 5 {
             usage();
